@@ -3,7 +3,7 @@ import DadiVerif.Model.LowPass
 /- driver ops for the low-pass calling model (C18).  `cov` = comma list of depth probabilities (depth 0,1,…),
    F = exact rational, sizes in haplotypes.
 
-   lp_part x n                    -> ok g;g;…            partitions of allele count x among n individuals (`-` = none)
+   lp_part x n minv maxv          -> ok g;g;…            Numerics.part(x, n, minv, maxv) (`none` = no partition; the empty partition of n = 0 prints as `-`)
    lp_partprobs x n F             -> ok p,p,…            partition probabilities (same order)
    lp_projinb g k                 -> ok r0,…,rk          projection_inbreeding(g, k)
    lp_projmat nseq nsub F         -> ok row;row;…        projection_matrix
@@ -26,12 +26,6 @@ def okF (F : Rat) : Bool := decide (0 ≤ F) && decide (F < 1)
 
 def okCov (c : List Rat) : Bool := !c.isEmpty && c.all (fun v => decide (0 ≤ v))
 
-structure Pop where
-  c : List Rat
-  nseq : Nat
-  nsub : Nat
-  F : Rat
-
 def parsePop (s : String) : Option Pop :=
   match s.splitOn "@" with
   | [c, nseq, nsub, F] => do
@@ -46,10 +40,6 @@ def popErr (p : Pop) : Option String :=
   else if !okF p.F then some "err F"
   else none
 
-def axesOf (pops : List Pop) : List Axis :=
-  let peAll := pops.foldl (fun acc p => acc * probEnough p.c p.nseq p.nsub) 1
-  pops.map fun p => mkAxis p.c p.nseq p.nsub p.F peAll
-
 def parseIdx (s : String) : Option (List Nat) := parseNatList s "."
 
 def parseSims (s : String) : Option (List (List Nat × Array Rat)) :=
@@ -63,10 +53,10 @@ def parseSims (s : String) : Option (List (List Nat × Array Rat)) :=
 
 def handle (toks : List String) : Option String :=
   match toks with
-  | ["lp_part", x, n] => do
-      let x ← x.toNat?; let n ← n.toNat?
-      let G := part x n 0 2
-      some ("ok " ++ (if G.isEmpty then "-" else ";".intercalate (G.map showNatList)))
+  | ["lp_part", x, n, minv, maxv] => do
+      let x ← x.toNat?; let n ← n.toNat?; let minv ← minv.toNat?; let maxv ← maxv.toNat?
+      let G := part x n minv maxv
+      some ("ok " ++ (if G.isEmpty then "none" else ";".intercalate (G.map showNatList)))
   | ["lp_partprobs", x, n, F] => do
       let x ← x.toNat?; let n ← n.toNat?; let F ← parseRat F
       if !okF F then some "err F" else
